@@ -1,5 +1,7 @@
 import StraxModel.Driver.Parse
 import StraxModel.Model.Backpressure
+import StraxModel.Driver.C06
+import StraxModel.Model.NetPath
 /-
   Driver ops of property C13 (chain model of Model/Backpressure.lean).
 
@@ -14,6 +16,11 @@ import StraxModel.Model.Backpressure
      has been handed k chunks, then the consumer is paused and everything else runs under `post` until nothing is
      enabled.  answer `ok wire=<mb_0>;<mb_1>;… pause=<source chunks computed at the pause> quiet=<… at quiescence>
      rest=<1 if quiescent> B=<bound: B, in lazy mode Blazy>`
+  `c13.path <allowLazy> <maxWorkers|-> <maxMessages> <targets> <loaders> <defs> <plugins> <savers>`   (arguments as `c06.wire`)
+     wires the components with c06's `wire` (Model/Net.lean), finds the cheapest path source mailbox -> consumer subscription
+     and evaluates the hypothesis and the bound of `dag_rest_bound` on it.
+     answer `ok hyp=<pathOk 0/1> sole=<the consumer is the only reader of its subscription 0/1> B=<pathBound>
+     lagR=<pathLagR> path=<mailbox names joined by `>`> lags=<lag of every link joined by ,>`
 -/
 namespace Strax.Driver.C13
 open Strax Strax.Mailbox Strax.Backpressure
@@ -51,6 +58,72 @@ def rest (w : Wiring) (n k : Nat) (pre post : Policy) : String :=
   let (s2, q) := runPolicy post false (fun _ => false) fuel s1
   s!"ok wire={wireDesc w} pause={chunks n s1} quiet={chunks n s2} rest={b01 (q && s2.quiescent)} B={bound w}"
 
+/-! ### c13.path -/
+open Strax.Net Strax.NetBP in
+/-- largest excess of reads of (mi, si) over sends into mo, over all points of the program; and the other way round -/
+def lagsOf (th : Net.Thread) (mi si mo : Nat) : Nat × Nat :=
+  let r := cntRead mi si th.body
+  let o := cntOut mo th.body
+  (tails th.body).foldl (fun (acc : Nat × Nat) p =>
+    (max acc.1 (r + cntOut mo p - (o + cntRead mi si p)), max acc.2 (o + cntRead mi si p - (r + cntOut mo p)))) (0, 0)
+
+open Strax.Net Strax.NetBP in
+def senderOf (net : Net.Net) (m : Nat) : Option Nat :=
+  net.threads.findIdx? fun th => th.body.any fun i => i == .send m
+
+open Strax.Net Strax.NetBP in
+/-- cheapest way upstream from mailbox `m`: (cost = Σ 2·cap + lag - 1, first mailbox, links) -/
+def bestPath (net : Net.Net) : Nat → Nat → Option (Nat × Nat × List Link)
+  | 0, _ => none
+  | fuel + 1, m =>
+    let here := 2 * capOf net m
+    match senderOf net m with
+    | none => some (here, m, [])
+    | some t =>
+      match net.threads[t]? with
+      | none => some (here, m, [])
+      | some th =>
+        if th.subs.isEmpty then some (here, m, [])
+        else
+          let cands := th.subs.filterMap fun (mi, si) =>
+            match bestPath net fuel mi with
+            | none => none
+            | some (cost, m0, links) =>
+              let (lag, lagR) := lagsOf th mi si m
+              some (cost + here + lag - 1, m0, links ++ [({ t := t, mi := mi, si := si, mo := m, lag := lag, lagR := lagR } : Link)])
+          cands.foldl (fun (best : Option (Nat × Nat × List Link)) c =>
+            match best with
+            | none => some c
+            | some b => if c.1 < b.1 then some c else some b) none
+
+open Strax.Net Strax.NetBP in
+def pathOp (net : Net.Net) : String :=
+  let c := net.threads.length - 1
+  match net.threads[c]? with
+  | none => "err no-consumer"
+  | some main =>
+    match main.subs with
+    | [(mk, sk)] =>
+      (match bestPath net (net.mbs.length + 1) mk with
+       | none => "err no-path"
+       | some (_, m0, links) =>
+         let names := (m0 :: links.map (·.mo)).map fun m => (net.mbs[m]?.map (·.name)).getD "?"
+         s!"ok hyp={b01 (pathOk net m0 links mk sk)} sole={b01 (soleReader net c mk sk)} B={pathBound net m0 links} lagR={pathLagR links} path={">".intercalate names} lags={",".intercalate (links.map fun L => toString L.lag)}")
+    | _ => "err consumer-subscriptions"
+
+open Strax.Net in
+def pathWire (lazy mw mm targets loaders defs plugins savers : String) : Option String := do
+  let allowLazy ← parseBool lazy
+  let mw ← if mw == "-" then some none else mw.toNat?.map some
+  let mm ← mm.toNat?
+  let loaders ← (splitList loaders ",").mapM C06.parseLoader
+  let defs ← (splitList defs ";").mapM C06.parseDef
+  let plugins ← (splitList plugins ",").mapM C06.parseKV
+  let savers ← (splitList savers ",").mapM C06.parseKV
+  let c : Components := { plugins := plugins, defs := defs, loaders := loaders,
+                          savers := savers.map (fun (d, n) => (d, List.replicate n {})), targets := splitList targets "," }
+  pure (pathOp (wire c { allowLazy := allowLazy, maxWorkers := mw, maxMessages := mm } .drain))
+
 end Strax.Driver.C13
 
 namespace Strax.Driver
@@ -64,6 +137,8 @@ def handleC13 : List String → Option String
   | ["c13.rest", lazy, caps, savers, n, k, pre, post] => do
     let w ← parseWiring lazy caps savers
     pure (rest w (← n.toNat?) (← k.toNat?) (← parsePolicy pre) (← parsePolicy post))
+  | ["c13.path", lazy, mw, mm, targets, loaders, defs, plugins, savers] =>
+    pathWire lazy mw mm targets loaders defs plugins savers
   | _ => none
 
 end Strax.Driver
